@@ -31,20 +31,32 @@ theorem url_filter_table :
     [0] ∈ Generated.urlForbidden ∧ [10] ∈ Generated.urlForbidden ∧ [9] ∈ Generated.urlForbidden ∧
     [13] ∈ Generated.urlForbidden ∧ [34] ∈ Generated.urlForbidden := by decide
 
-/-! ### 1. the filter is closed under substrings -/
+/-! ### 1. the substring part of the filter is closed under substrings -/
+
+/-- free of every forbidden substring: the part of the filter that path containment rests on
+    (the filter proper also refuses a final `/.`, which is about the whole selector) -/
+abbrev pathSafe (s : Str) : Prop := InfixSafe Generated.forbidden s
+
+theorem secure_pathSafe {s : Str} (hs : secure s = true) : pathSafe s := secure_infixSafe hs
 
 /-- Whatever a handler derives from a secure selector by *cutting* (prefixes, the real part
-    of a virtual selector, `selector[2:]` of the type rewriter, path components) is secure. -/
+    of a virtual selector, `selector[2:]` of the type rewriter, path components) is free of
+    every forbidden substring. -/
 theorem secure_infix_closed {s t : Str} (hs : secure s = true) (ht : t <:+: s) :
-    secure t = true := Pyg.secure_infix_closed hs ht
+    pathSafe t := infixSafe_infix_closed (secure_infixSafe hs) ht
 
 theorem virtual_real_part_secure {s : Str} (hs : secure s = true) :
-    secure (virtualSplit s).1 = true :=
-  Pyg.secure_infix_closed hs (virtualSplit_prefix s).isInfix
+    pathSafe (virtualSplit s).1 :=
+  secure_infix_closed hs (virtualSplit_prefix s).isInfix
 
 theorem rewriter_tail_secure {s : Str} (hs : secure s = true) :
-    secure (s.drop 2) = true :=
-  Pyg.secure_infix_closed hs (List.drop_suffix 2 s).isInfix
+    pathSafe (s.drop 2) :=
+  secure_infix_closed hs (List.drop_suffix 2 s).isInfix
+
+/-- the last component of a secure selector is not a single dot: `/dir/.` is refused (its
+    members would have selectors containing `/./`, which the filter refuses) -/
+theorem secure_not_dot_last {s : Str} (hs : secure s = true) : isSuffixB [47, 46] s = false :=
+  secure_not_dot_suffix hs
 
 /-! ### 2. what a secure selector cannot contain -/
 
